@@ -159,7 +159,7 @@ def step (b : Builder) (toks : List String) : Option Builder :=
 
 /-- the codec the correspondence runs with: text reads back a written double with the sign of zero dropped
     (`g_fmt` prints "0" for -0) and otherwise unchanged — the hypothesis the harness tests on the real
-    `g_fmt`→`strtod`; binary is the identity.  `vb` is supplied by the harness per run (it is `strtod(printf("%.g"))`). -/
+    `g_fmt`→`strtod`; binary is the identity.  `vb` is supplied by the harness per run (it is `strtod(printf("%.17g"))`, plain libc). -/
 def runCodec (binary : Bool) (vbBack : Dbl) : Codec :=
   ⟨if binary then id else Dbl.normZero, fun _ => vbBack⟩
 
